@@ -25,7 +25,8 @@ LEVEL = 'exploration'
 TECHNIQUE = 'bounded exhaustive enumeration of programs x every layout transformation at every site (single, all-at-once, pairs), parse compared with the base layout; merge law and fixed point'
 RULE = ('programs: S1 term shapes over 6 names (RHS and LHS), S4 systems over 6 (quick) / 12 (thorough) right-hand sides, specials; transformations T1 comments, T2 blank lines, '
         'T3 extra/removed whitespace at every token boundary, T3b space before an index bracket, T4 spaces inside { } < > [ ], T5 explicit [0], T6 parenthesise-and-break after every '
-        'operator, T6 redundant brackets round a single operand, T7 statement permutations; scripts with fenced/inline verbatim code under comments and blanks on every line, duplicate verbatim statements; merge law and fixed point on every program. non-trivial = variant whose text differs from the base layout and is parsed')
+        'operator, T6 redundant brackets round a single operand, T7 statement permutations; scripts with fenced/inline verbatim code under comments and blanks on every line, duplicate verbatim statements; merge law and fixed point on every program. non-trivial = variant whose text differs from the base layout and is parsed'
+        " Names include a soft keyword and '_'; operands bracketed with tab / blanks / line break inside; line break or tab just inside index brackets; the fixed-point law on the normal form reached from every whitespace or bracket layout.")
 ASSUMPTIONS = [
     'no leading whitespace on a statement (documented IndentationError); no space between the sign and the digits of an index',
     'a space is only removed where Python tokenises the text identically with and without it and the neighbours are not both alphanumeric',
@@ -81,7 +82,8 @@ def render_term(t, opt):
     if opt.get('zero') and idx == '':
         idx = '[0]'
     if idx and opt.get('idx_inner'):
-        idx = '[ ' + idx[1:-1].strip() + ' ]'
+        pad = opt['idx_inner'] if isinstance(opt['idx_inner'], str) else ' '
+        idx = '[' + pad + idx[1:-1].strip() + pad + ']'
     text = base + opt.get('pre_bracket', '') + idx
     if opt.get('paren'):
         text = opt['paren'][0] + text + opt['paren'][1]  # redundant parentheses round one operand
@@ -209,6 +211,12 @@ def variants_of_eq(eq):
                 lay.wrap = 'rhs'
                 lay.term[i] = {'pre_bracket': sep}
                 yield ('T6-break-before-index', i, lay)
+            # ... and a line break (or a tab) just inside the index brackets
+            for pad in ('\n    ', '\t'):
+                lay = Layout()
+                lay.wrap = 'rhs'
+                lay.term[i] = {'idx_inner': pad}
+                yield ('T6-break-inside-index', i, lay)
     # T2/T1 inside a statement spread over parentheses: a blank line or a comment-only line between two continuation lines
     first_break = next((i for i in range(2, n - 1) if atoms[i][0] == 'tok' and re.fullmatch(r'\*\*|<=|>=|==|!=|[-+*/<>,(]|and|or|if|else|not', atoms[i][1])), None)
     if first_break is not None:
@@ -311,7 +319,7 @@ def program_list(tier):
             seen.add(s)
             out.append(p)
 
-    names = ['X', 'x1', 'is_open', 'not_X', 'exp', 'Ta']
+    names = ['X', 'x1', 'is_open', 'not_X', 'exp', 'Ta', 'case', '_']   # (a soft keyword and the lone underscore are ordinary names)
     for nm in names:
         for kind, sp in programs.S1_KINDS[:3]:
             for off, form in [(0, 'none'), (-1, 'plain'), (2, 'plus'), (-10, 'plain')]:
